@@ -224,6 +224,7 @@ PROPS["C13"] = {
 
 PROPS["C16"] = {
     "title": "Scan conversion of a path matches point membership",
+    "props_modules": ["C16", "C16Side"],
     "gen_modules": ["Basis", "Section", "Walk", "PathContour"],
     "corr_n": (20000, 400000),
     "search_n": (2000, 40000),
@@ -236,7 +237,7 @@ PROPS["C16"] = {
                   "arrangement of the hits, intercepts_on_line_membership, intercepts_on_column_membership; intercepts_on_line_generic: with no duplicate pair and an even hit count, membership "
                   "is the parity of the solver hits). remove_duplicate_intercepts: the generated loop never exhausts its fuel and equals a fuel-free recursion (remove_duplicates_eq), returns a "
                   "sub-list (sorted stays sorted), every removal is licensed by the duplicate condition at that moment (remove_duplicates_licensed), lists without a duplicate pair are returned "
-                  "unchanged; curves_are_neighbors is characterised (neighbors_spec). Columns: column_is_transposed_row_without_dedupe - the column closure is the row closure of the transposed "
+                  "unchanged; curves_are_neighbors is characterised (neighbors_spec); the same-side test is characterised against the polynomial derivative (Props/C16Side: same_side_spec - true exactly when the y-derivative of the FIRST hit's curve at the FIRST hit's parameter and that of the SECOND hit's curve at the SECOND hit's parameter have the same signum, or one vanishes; yDeriv_is_derivative). Columns: column_is_transposed_row_without_dedupe - the column closure is the row closure of the transposed "
                   "curve table without duplicate removal and without the t = 0 hits; column_eq_transposed_row when that does not matter. solve_basis_for_t: exact set of returned parameters "
                   "(solve_basis_mem), polynomial identity, soundness and completeness on the cubic branch relative to the external finder, residual < 1e-8 on the quadratic branch; "
                   "row_hits_are_the_crossings: for a scanline through no curve end point (cubic branch, exact duplicate-free finder, bounding boxes containing their curves) the gathered hits are "
